@@ -40,6 +40,9 @@ pub struct ReadPlan {
     /// Fail when the callee asks for the byte at this offset.
     pub fail_at: Option<usize>,
     pub fail_kind: String,
+    /// "sticky": every later call fails too; "once-eof": fails once, then reports end of input (a reset connection);
+    /// "once-continue": fails once, then carries on with the remaining bytes (a transient error).
+    pub fail_mode: String,
 }
 
 pub fn error_of(kind: &str) -> io::Error {
@@ -63,6 +66,7 @@ pub struct PlanReader {
     /// End of the currently exposed chunk.
     chunk_end: usize,
     next_chunk: usize,
+    failed_once: bool,
     stats: Arc<Mutex<Stats>>,
 }
 
@@ -74,6 +78,7 @@ impl PlanReader {
             pos: 0,
             chunk_end: 0,
             next_chunk: 0,
+            failed_once: false,
             stats,
         }
     }
@@ -85,8 +90,17 @@ impl BufRead for PlanReader {
             // Need a new chunk.
             if let Some(fail_at) = self.plan.fail_at {
                 if self.pos >= fail_at {
-                    self.stats.lock().unwrap().fault_delivered = true;
-                    return Err(error_of(&self.plan.fail_kind));
+                    if self.failed_once && self.plan.fail_mode == "once-eof" {
+                        self.stats.lock().unwrap().eof_seen = true;
+                        return Ok(&[]);
+                    }
+                    if self.failed_once && self.plan.fail_mode == "once-continue" {
+                        self.plan.fail_at = None;
+                    } else {
+                        self.failed_once = true;
+                        self.stats.lock().unwrap().fault_delivered = true;
+                        return Err(error_of(&self.plan.fail_kind));
+                    }
                 }
             }
             if self.pos >= self.data.len() {
